@@ -1,5 +1,5 @@
 """Model-independent oracles: each evaluates a clause of a property directly on the real code."""
-import copy
+import copy, random
 from common import np, dnp, consistent, canon_obj, frac
 
 
@@ -1060,3 +1060,150 @@ class BaselineOracle:
                 if not any(np.array_equal(np.roll(src[:, j], s), got[:, j]) for s in range(n)):
                     out.append("C14:ndalign-not-a-roll:" + sig); break
         return out
+
+
+# ------------------------------------------------------------------ storage dtype must not matter
+def dtype_independence(pid, cases, seed, dim_positions=(1,), shape=(3, 8, 2)):
+    """The SAME numbers stored in another dtype give the same result.  `cases`: (name, fn(d, dimname) -> DNPData | dict of
+    DNPData | ndarray, dimname).  The reference object holds small integer-valued float64 values on an integer-valued float64
+    axis; the variants store the values as int64 / int32 / int16 / float32 / complex128 (zero imaginary part) and the
+    coordinates of the processed dimension as int64 / int32 / uint16 / float32.  A variant that RAISES is not judged (refusing a
+    dtype is not a wrong result); one that returns must agree with the reference by value (dims equal, values and every
+    coordinate array close).  Returns (failures, evaluations)."""
+    import warnings
+    rng = random.Random(seed * 7919 + 4242)
+    fails, n_eval = [], 0
+
+    def results(r):
+        if isinstance(r, dnp.DNPData):
+            return {"": r}
+        if isinstance(r, dict):
+            return {k: v for k, v in r.items() if isinstance(v, dnp.DNPData)}
+        return {"": r}
+
+    def same(a, b, tol):
+        if isinstance(a, dnp.DNPData) != isinstance(b, dnp.DNPData):
+            return False
+        if not isinstance(a, dnp.DNPData):
+            a_, b_ = np.asarray(a), np.asarray(b)
+            return a_.shape == b_.shape and bool(np.allclose(a_.astype(complex), b_.astype(complex), rtol=tol, atol=tol, equal_nan=True))
+        if list(a.dims) != list(b.dims) or np.shape(a.values) != np.shape(b.values):
+            return False
+        sc = max(1.0, float(np.max(np.abs(np.nan_to_num(np.asarray(b.values, dtype=complex))))) if np.size(b.values) else 1.0)
+        if not np.allclose(np.asarray(a.values, dtype=complex), np.asarray(b.values, dtype=complex), rtol=tol, atol=tol * sc, equal_nan=True):
+            return False
+        for dm in a.dims:
+            ca, cb = np.asarray(a.coords[dm], dtype=float), np.asarray(b.coords[dm], dtype=float)
+            if ca.shape != cb.shape or not np.allclose(ca, cb, rtol=max(tol, 1e-9), atol=max(tol, 1e-9) * max(1.0, float(np.max(np.abs(cb))) if cb.size else 1.0)):
+                return False
+        return True
+
+    vkinds = [("int64", np.int64, 1e-9), ("int32", np.int32, 1e-9), ("int16", np.int16, 1e-9), ("float32", np.float32, 2e-5),
+              ("complex128", np.complex128, 1e-9)]
+    ckinds = [("int64", np.int64, 1e-9), ("int32", np.int32, 1e-9), ("uint16", np.uint16, 1e-9), ("float32", np.float32, 2e-5)]
+    for name, fn, dimname in cases:
+        for pos in dim_positions:
+            shp = list(shape)
+            n = shp[pos]
+            names = ["Average", "x2", "y3"]; names[pos] = dimname
+            vals = np.array([[rng.randint(-9, 9) for _ in range(int(np.prod(shp)))]], dtype=float).reshape(shp)
+            vals[tuple(0 if k != pos else slice(None) for k in range(3))] = np.arange(1, n + 1) * 2.0     # one non-trivial trace
+            axis = np.arange(n, dtype=float) * 2.0          # integer-valued, non-unit spacing, starts at 0
+            coords = [np.arange(s, dtype=float) for s in shp]; coords[pos] = axis
+
+            def build(vd=None, cd=None):
+                v = vals.astype(vd) if vd is not None else vals.copy()
+                cs = [c.copy() for c in coords]
+                if cd is not None:
+                    cs[pos] = axis.astype(cd)
+                return dnp.DNPData(v, list(names), cs)
+
+            def call(d):
+                with warnings.catch_warnings():
+                    warnings.simplefilter("ignore")
+                    with np.errstate(all="ignore"):
+                        return results(fn(d, dimname))
+            try:
+                ref = call(build())
+            except Exception:  # noqa: BLE001
+                continue
+            for which, kinds in (("values", vkinds), ("axis", ckinds)):
+                for label, dt, tol in kinds:
+                    n_eval += 1
+                    try:
+                        got = call(build(vd=dt) if which == "values" else build(cd=dt))
+                    except Exception:  # noqa: BLE001  (a dtype the function refuses)
+                        continue
+                    bad = [k for k in ref if k not in got or not same(got[k], ref[k], tol)]
+                    if bad:
+                        key = "%s:result-depends-on-storage-dtype:%s:%s-%s" % (pid, name, which, label)
+                        fails.append({"key": key, "clause": key,
+                                      "ops": [{"function": name, "stored": which, "dtype": label, "dim_pos": pos, "parts": bad}]})
+    seen, uniq = set(), []
+    for f in fails:
+        if f["key"] not in seen:
+            seen.add(f["key"]); uniq.append(f)
+    return uniq, n_eval
+
+
+def merge_oracle(res, fails, n_eval, label):
+    """add the findings of a model-independent oracle to the result of a property run"""
+    seen = {f["key"] for f in res["impl_failures"]}
+    for f in fails:
+        if f["key"] not in seen:
+            seen.add(f["key"]); res["impl_failures"].append(f)
+    res["evaluations"] += n_eval
+    res.setdefault("distribution", {})[label] = n_eval
+    return res
+
+
+# ------------------------------------------------------------------ the unit of the processed axis must not matter
+def axis_scale_independence(pid, cases, seed, scales=(1e-9, 1e-6, 1e-3, 1e3, 1e6), shape=(3, 9, 2), pos=1):
+    """The SAME object with its processed axis expressed in another unit (all coordinates of that axis times s, every
+    coordinate-valued argument scaled alike by the case itself) gives the same result up to the factors the case declares.
+    `cases`: (name, fn(d, dimname, s) -> DNPData, dimname, value_factor(s), coord_factor(s) or None when the dimension is
+    consumed).  Axes: non-uniform ascending.  Returns (failures, evaluations)."""
+    import warnings
+    rng = random.Random(seed * 7919 + 4343)
+    fails, n_eval = [], 0
+    for name, fn, dimname, vfac, cfac in cases:
+        shp = list(shape); n = shp[pos]
+        names = ["Average", "x2", "y3"]; names[pos] = dimname
+        vals = np.array([rng.randint(-9, 9) + 0.5 * rng.randint(0, 1) for _ in range(int(np.prod(shp)))], dtype=float).reshape(shp)
+        vals = vals + 1j * np.roll(vals, 1)
+        base = np.cumsum([0.0] + [[1.0, 0.5, 2.0, 1.5][k % 4] for k in range(n - 1)])      # non-uniform, starts at 0
+
+        def call(s):
+            cs = [np.arange(m, dtype=float) for m in shp]; cs[pos] = base * s
+            d = dnp.DNPData(vals.copy(), list(names), cs)
+            with warnings.catch_warnings():
+                warnings.simplefilter("ignore")
+                with np.errstate(all="ignore"):
+                    return fn(d, dimname, s)
+        try:
+            ref = call(1.0)
+        except Exception:  # noqa: BLE001
+            continue
+        for s in scales:
+            n_eval += 1
+            try:
+                got = call(s)
+            except Exception as e:  # noqa: BLE001
+                key = "%s:result-depends-on-axis-scale:%s:raises" % (pid, name)
+                fails.append({"key": key, "clause": key, "ops": [{"function": name, "scale": s, "error": type(e).__name__}]}); break
+            ok = list(got.dims) == list(ref.dims) and np.shape(got.values) == np.shape(ref.values)
+            if ok:
+                want = np.asarray(ref.values, dtype=complex) * vfac(s)
+                sc = max(1e-300, float(np.max(np.abs(want))) if want.size else 1.0)
+                ok = bool(np.allclose(np.asarray(got.values, dtype=complex), want, rtol=1e-7, atol=1e-9 * sc))
+            if ok:
+                for dm in ref.dims:
+                    f = cfac(s) if (dm in (dimname, "f" + dimname[1:]) and cfac is not None) else 1.0
+                    cw = np.asarray(ref.coords[dm], dtype=float) * f
+                    cg = np.asarray(got.coords[dm], dtype=float)
+                    if cg.shape != cw.shape or not np.allclose(cg, cw, rtol=1e-9, atol=1e-12 * max(1e-300, float(np.max(np.abs(cw))) if cw.size else 1.0)):
+                        ok = False
+            if not ok:
+                key = "%s:result-depends-on-axis-scale:%s" % (pid, name)
+                fails.append({"key": key, "clause": key, "ops": [{"function": name, "scale": s, "axis": (base * s).tolist()}]}); break
+    return fails, n_eval
